@@ -453,6 +453,8 @@ class Trace:
     def _peek(self, inst):
         if inst in self.unpeeked:
             self.unpeeked.remove(inst)
+            if inst not in self.objs:        # the driver dropped the object (short-lived parameter sets)
+                return
             try:
                 out = {"t": "val", "v": hx(self.objs[inst].outbound_message)}
             except Exception as e:
